@@ -285,8 +285,9 @@ func init() {
 			"derived views (GetNoteStart, GetNoteEnd, GetChannel, and the wrappers GetMetaKey, GetMetaMeter) are checked for agreement with their base, not for exclusivity",
 			"sampled FF tt strings keep the embedded length VLQ at most 3 bytes: String() allocates the declared text length and the property is about panics, not allocation",
 		},
-		Require: []string{"every_length_strings", "standard_message_substitutions", "strings_midi", "strings_smf", "meta_strings", "strings_accepted_by_an_accessor", "cat:midi:channel", "cat:midi:syscommon", "cat:midi:realtime", "cat:midi:sysex", "cat:midi:unknown", "cat:smf:meta", "patterned_long_strings", "byte_substitution_strings"},
-		Run:     runC08,
+		Require:     []string{"every_length_strings", "standard_message_substitutions", "strings_midi", "strings_smf", "meta_strings", "strings_accepted_by_an_accessor", "cat:midi:channel", "cat:midi:syscommon", "cat:midi:realtime", "cat:midi:sysex", "cat:midi:unknown", "cat:smf:meta", "patterned_long_strings", "byte_substitution_strings"},
+		Int32Worker: true,
+		Run:         runC08,
 	})
 }
 
@@ -607,6 +608,26 @@ func runC08(c *mon.Ctx) {
 			}
 		}
 		c.DistinctBytes([]byte(fmt.Sprint("longtext", i)))
+	})
+
+	// where int has 32 bits (worker built with GOARCH=386): declared lengths of 2^31 and more, short strings of every kind
+	c.Each32("declared-lengths-32bit", 1, func(_ int64, r *mon.Rand) {
+		for typ := 0; typ < 128; typ++ {
+			for _, ln := range [][]byte{{0x88, 0x80, 0x80, 0x80, 0x00}, {0x8F, 0xFF, 0xFF, 0xFF, 0x7F}, {0x87, 0xFF, 0xFF, 0xFF, 0x7F}, {0xFF, 0xFF, 0xFF, 0xFF, 0x7D}, {0xFF, 0xFF, 0xFF, 0x7F}} {
+				m := append(append([]byte{0xFF, byte(typ)}, ln...), 'a', 'b')
+				c.Count("cat:smf:"+classifySMF(c, m), 1)
+				c.Count("strings_classified_on_a_32_bit_platform", 1)
+			}
+		}
+		for k := 0; k < 200_000; k++ {
+			m := r.Bytes(r.Intn(12))
+			if len(m) > 0 && r.P(1, 2) {
+				m[0] = []byte{0xFF, 0xF0, 0xF7, 0x90, 0xB0, 0xE0, 0xF2}[r.Intn(7)]
+			}
+			classifySMF(c, m)
+			classifyMidi(c, m)
+			c.Count("strings_classified_on_a_32_bit_platform", 2)
+		}
 	})
 
 	// text-like meta events whose declared length is far beyond the data that is there, up to the top of the 32-bit
